@@ -785,7 +785,7 @@ class ExprMixin:
             return ent
         if name in ('len', 'isinstance', 'str', 'int', 'repr', 'getattr', 'hasattr', 'list',
                     'tuple', 'sorted', 'range', 'iter', 'type', 'bool', 'float', 'dict',
-                    'min', 'max', 'abs', 'id', 'reduce', 'all', 'any', 'set', 'enumerate', 'zip', 'bytes'):
+                    'min', 'max', 'abs', 'id', 'reduce', 'all', 'any', 'set', 'enumerate', 'zip', 'bytes', 'print'):
             return Entity('builtin', name)
         c = self.classes.canon(name)
         if c.startswith('builtin:'):
